@@ -12,6 +12,7 @@ pub mod runtime;
 /// Verification hooks (only with `--cfg hpbf_verif`): re-export of crate-private types.
 #[cfg(hpbf_verif)]
 pub mod verif {
+    pub use crate::hasher::{HashMap, HashSet};
     pub use crate::smallvec::SmallVec;
 }
 
